@@ -600,6 +600,26 @@ def main(repo_path, tier, seed, replay=None):
                     'translate_address_p iterates range(number_of_mpu_regions())')
     else:
         run.control('C20-L latched value re-read at run time', False, '')
+    # positive control of the driver-marker half of C20-S (expected count zero): the unconditional reset of a marker removed
+    fe = repo.method('ArmV6', 'execute_instruction')
+    seg_e = ast.get_source_segment(fe.module.source, fe.node)
+    from .. import bookkeeping as _bk
+    fired_m, what_m = False, ''
+    for flag in sorted(_bk.instruction_flags(repo)):
+        line = [l for l in seg_e.split('\n') if l.strip().startswith('self.registers.%s = ' % flag)]
+        reads = ('self.registers.%s' % flag) in seg_e.replace(line[0], '', 1) if line else False
+        if line and reads:
+            msrc = fe.module.source.replace(seg_e, seg_e.replace(line[0] + '\n', '', 1), 1)
+            mrepo = Repo(repo_path, overrides={fe.module.relpath: msrc})
+            tmp = Run('C20')
+            try:
+                check_scratch(tmp, mrepo, Effects(mrepo))
+                fired_m = any(f.construct == 'stale registers.' + flag for f in tmp.findings)
+            except AnalysisError:
+                fired_m = True
+            what_m = 'execute_instruction no longer resets registers.%s before the opcode executes' % flag
+            break
+    run.control('C20-S driver marker not reset', fired_m, what_m)
     # positive control of the memo detector (its expected count on the tree is zero): a keyed cache in front of a helper
     bo = repo.module('armulator.armv6.bits_ops')
     memo_src = bo.source + ('\n\n_SEEN = {}\n\n\ndef remembered_align(x, y, carry):\n    if x in _SEEN:\n        return _SEEN[x]\n'
